@@ -26,5 +26,9 @@ export -f run_one
 rm -rf /tmp/seedbase; mkdir -p /tmp/seedbase; rsync -a --exclude .git /repo/ /tmp/seedbase/
 echo $seeds | tr ' ' '\n' | xargs -P 2 -I{} bash -c 'run_one {}' > /tmp/seedall.tsv
 rm -rf /tmp/seedbase
-sort /tmp/seedall.tsv > /verif/seeded/RESULTS.tsv
-cat /verif/seeded/RESULTS.tsv | cut -f1-4
+if [ $# -eq 0 ]; then cut -f1-4 /tmp/seedall.tsv | sort > /verif/seeded/RESULTS.tsv; else
+  # partial run: replace only the lines of the seeds that were run
+  for s in "$@"; do grep -v -P "^$s\t" /verif/seeded/RESULTS.tsv > /tmp/res.$$ ; mv /tmp/res.$$ /verif/seeded/RESULTS.tsv; done
+  cut -f1-4 /tmp/seedall.tsv >> /verif/seeded/RESULTS.tsv; sort -o /verif/seeded/RESULTS.tsv /verif/seeded/RESULTS.tsv
+fi
+cut -f1-4 /tmp/seedall.tsv | sort
